@@ -48,8 +48,7 @@ Proof.
   - apply keepc_group_d; assumption.
   - apply keepc_try_w; assumption.
   - (* a Custom attempt runs on its own T; the outer T only receives a forwarded failure *)
-    intros s0. unfold custom_att, with_fresh_T. cbn [post ts with_ts].
-    destruct (failed (ts (post (custom_inner LF0 crun body (with_ts s0 fresh_t))))); cbn; auto.
+    intros s0. unfold custom_att, with_fresh_T. cbn [post ts with_ts cleaning ctx]. auto.
 Qed.
 
 Section End.
@@ -60,15 +59,18 @@ Section End.
   Definition loop_handler f last (r : result val) : M (option exn) :=
     match r with
     | Err XFuel => throw XFuel
-    | Err e => _ <- (match e with XInvalid m => if internal_msg m then mark_dirty else ret tt | _ => ret tt end) ;;
-               cleanup_loop crun f (Some e)
+    | Err (XInvalid m) => _ <- (if internal_msg m then mark_dirty else ret tt) ;; _ <- note_skip m ;; cleanup_loop crun f last
+    | Err e => cleanup_loop crun f (Some e)
     | Ok _ => cleanup_loop crun f last
     end.
+  Lemma bind_ok_shape A B (m : M A) (f : A -> M B) s a :
+    res (m s) = Ok a -> res (bind m f s) = res (f a (post (m s))) /\ post (bind m f s) = post (f a (post (m s))).
+  Proof. intros H. unfold bind. rewrite H. split; reflexivity. Qed.
   Lemma cl_none f last s : cleanups (ts s) = [] ->
     res (cleanup_loop crun (S f) last s) = Ok last /\ post (cleanup_loop crun (S f) last s) = s.
   Proof. intros H. cbn [cleanup_loop]. unfold bind, pop_cleanup. rewrite H. split; reflexivity. Qed.
   Lemma cl_some f last s id c rest : cleanups (ts s) = (id, c) :: rest -> cleaning (ts s) = true ->
-    let s1 := with_ts s (mkT (failed (ts s)) rest (ctx (ts s)) true) in
+    let s1 := with_ts s (mkT (failed (ts s)) rest (ctx (ts s)) true (skipreq (ts s))) in
     res (cleanup_loop crun (S f) last s) = res (loop_handler f last (res (crun c s1)) (post (crun c s1))) /\
     post (cleanup_loop crun (S f) last s) = post (loop_handler f last (res (crun c s1)) (post (crun c s1))).
   Proof.
@@ -91,36 +93,35 @@ Section End.
     destruct (cleanups (ts s)) as [|[id c] rest] eqn:El.
     - destruct (cl_none f last s El) as [E1 E2]. rewrite E1, E2. intros _. cbv zeta. auto.
     - destruct (cl_some f last s id c rest El Hc) as [E1 E2]. cbv zeta in E1, E2. rewrite E1, E2. clear E1 E2.
-      set (s1 := with_ts s (mkT (failed (ts s)) rest (ctx (ts s)) true)).
+      set (s1 := with_ts s (mkT (failed (ts s)) rest (ctx (ts s)) true (skipreq (ts s)))).
       destruct (keepc_exec geom LF lvl c s1) as [K1 K2].
       assert (Hc1 : cleaning (ts (post (crun c s1))) = true) by (rewrite K1; reflexivity).
       assert (Hx1 : ctx (ts (post (crun c s1))) = false) by (rewrite K2; [exact Hx|reflexivity]).
       unfold loop_handler. destruct (res (crun c s1)) as [v|e].
       + intros H. apply (IH last (post (crun c s1)) r Hc1 Hx1 H).
-      + assert (Em : forall (mk : M unit) s2, (res (mk s2) = Ok tt /\ post (mk s2) = s2) ->
-                  forall e0, res ((_ <- mk ;; cleanup_loop crun f (Some e0)) s2) = res (cleanup_loop crun f (Some e0) s2) /\
-                             post ((_ <- mk ;; cleanup_loop crun f (Some e0)) s2) = post (cleanup_loop crun f (Some e0) s2)).
-        { intros mk s2 [A B] e0. unfold bind. rewrite A, B. split; reflexivity. }
-        destruct e as [m|m s0|m s0|]; try (cbn; discriminate).
-        * destruct (Em (if internal_msg m then mark_dirty else ret tt) (post (crun c s1))
-                      ltac:(destruct (internal_msg m); split; reflexivity) (XInvalid m)) as [A B].
-          rewrite A, B. intros H. apply (IH _ (post (crun c s1)) r Hc1 Hx1 H).
-        * destruct (Em (ret tt) (post (crun c s1)) ltac:(split; reflexivity) (XStop m s0)) as [A B].
-          rewrite A, B. intros H. apply (IH _ (post (crun c s1)) r Hc1 Hx1 H).
-        * destruct (Em (ret tt) (post (crun c s1)) ltac:(split; reflexivity) (XPanic m s0)) as [A B].
-          rewrite A, B. intros H. apply (IH _ (post (crun c s1)) r Hc1 Hx1 H).
+      + destruct e as [m|m s0|m s0|]; try (cbn; discriminate).
+        * (* a skipping cleanup function: the request is noted, which keeps the rest of the T *)
+          set (mk := if internal_msg m then mark_dirty else ret tt).
+          assert (Hmk : res (mk (post (crun c s1))) = Ok tt /\ post (mk (post (crun c s1))) = post (crun c s1))
+            by (unfold mk; destruct (internal_msg m); split; reflexivity).
+          destruct Hmk as [M1 M2].
+          destruct (bind_ok_shape _ _ mk (fun _ => _ <- note_skip m ;; cleanup_loop crun f last) (post (crun c s1)) tt M1) as [A B].
+          rewrite A, B, M2. clear A B.
+          destruct (bind_ok_shape _ _ (note_skip m) (fun _ => cleanup_loop crun f last) (post (crun c s1)) tt eq_refl) as [A B].
+          rewrite A, B. clear A B.
+          intros H. apply (IH _ (post (note_skip m (post (crun c s1)))) r); [exact Hc1|exact Hx1|exact H].
+        * intros H. apply (IH _ (post (crun c s1)) r Hc1 Hx1 H).
+        * intros H. apply (IH _ (post (crun c s1)) r Hc1 Hx1 H).
   Qed.
 
-  Lemma bind_ok_shape A B (m : M A) (f : A -> M B) s a :
-    res (m s) = Ok a -> res (bind m f s) = res (f a (post (m s))) /\ post (bind m f s) = post (f a (post (m s))).
-  Proof. intros H. unfold bind. rewrite H. split; reflexivity. Qed.
   Lemma bind_err_shape A B (m : M A) (f : A -> M B) s e :
     res (m s) = Err e -> res (bind m f s) = Err e.
   Proof. intros H. unfold bind. rewrite H. reflexivity. Qed.
 
   Theorem cleanup_end s r :
     res (cleanup LF crun s) = Ok r ->
-    ts (post (cleanup LF crun s)) = mkT (failed (ts (post (cleanup LF crun s)))) [] false false.
+    ts (post (cleanup LF crun s))
+    = mkT (failed (ts (post (cleanup LF crun s)))) [] false false (skipreq (ts (post (cleanup LF crun s)))).
   Proof.
     unfold cleanup.
     destruct (bind_ok_shape _ _ begin_cleanup (fun _ => r0 <- cleanup_loop crun LF None ;; _ <- end_cleanup ;; ret r0) s tt eq_refl) as [E1 E2].
@@ -132,7 +133,7 @@ Section End.
     - destruct (bind_ok_shape _ _ (cleanup_loop crun LF None) (fun r0 => _ <- end_cleanup ;; ret r0) s1 r0 El) as [F1 F2].
       rewrite F1, F2. clear F1 F2.
       destruct (cleanup_loop_end LF None s1 r0 Hc1 Hx1 El) as [A [B C]].
-      intros _. unfold bind. cbn [end_cleanup ret res post ts with_ts]. rewrite A, C. reflexivity.
+      intros _. unfold bind. cbn [end_cleanup ret res post ts with_ts failed skipreq]. rewrite A, C. reflexivity.
     - rewrite (bind_err_shape _ _ (cleanup_loop crun LF None) (fun r0 => _ <- end_cleanup ;; ret r0) s1 e El). discriminate.
   Qed.
 End End.
@@ -141,9 +142,9 @@ Section CheckOnceEnd.
   Variable geom : nat -> N -> N.
   Variable LF lvl : nat.
 
-  Lemma tail_state (r' : result unit) s :
+  Lemma tail_state (r' : tstate -> result unit) s :
     post ((t <- get_ts ;;
-           match r', failed t with
+           match r' t, failed t with
            | Err XFuel, _ => throw XFuel
            | Ok _, Some mm | Err (XInvalid _), Some mm => throw (XStop mm SLate)
            | Ok _, None => ret tt
@@ -151,7 +152,7 @@ Section CheckOnceEnd.
            end) s) = s.
   Proof.
     unfold bind. cbn [get_ts res post].
-    destruct r' as [u|[mm|mm s0|mm s0|]]; destruct (failed (ts s)); reflexivity.
+    destruct (r' (ts s)) as [u|[mm|mm s0|mm s0|]]; destruct (failed (ts s)); reflexivity.
   Qed.
 
   Lemma handler_body_end (mark : M unit) (tail : option exn -> M unit) s1 :
